@@ -147,7 +147,7 @@ func s4() {
 
 // S5: out port with two concurrent senders.
 func s5() {
-	script(nil, 0)
+	sc := script(nil, 0)
 	drv, _ := midicatdrv.New()
 	outs, err := drv.Outs()
 	if err != nil || len(outs) == 0 {
@@ -170,6 +170,10 @@ func s5() {
 	}
 	done.Recv()
 	done.Recv()
+	// every Send has returned, so the helper has consumed every line
+	got := append([]string(nil), *sc.OutReceived...)
+	sort.Strings(got)
+	vs.Event("helper-got:" + strings.ReplaceAll(strings.Join(got, "|"), "\n", ""))
 	vs.Event("close:" + errStr(out.Close()))
 	vs.Event("close:" + errStr(out.Close()))
 	vs.Event("send-after-close:" + errStr(out.Send([]byte{0x90, 1, 2})))
@@ -302,10 +306,9 @@ func scenarios() []scenario {
 					return "send:error", "Send on an open port failed: " + s
 				}
 			}
-			got := eventsOf(e, "helper-received:")
-			sort.Strings(got)
-			want := []string{"helper-received:0 900040", "helper-received:0 900140", "helper-received:0 910040"}
-			if strings.Join(got, "|") != strings.Join(want, "|") {
+			got := eventsOf(e, "helper-got:")
+			want := "helper-got:0 900040|0 900140|0 910040"
+			if len(got) != 1 || got[0] != want {
 				return "send:lines", fmt.Sprintf("helper received %v, expected %v", got, want)
 			}
 			return "", ""
